@@ -87,16 +87,46 @@ def coq_make(targets, timeout=1500):
     return rc == 0, out
 
 
-def grep_gate():
-    """no Admitted/Axiom/... anywhere in the development"""
+def dep_closure(roots):
+    """transitive .v dependencies (within the development) of the given .vo targets / Props files,
+    from coqdep's output; falls back to every file when the dependency file is missing"""
+    dfile = os.path.join(COQ, '.Makefile.d')
+    if not os.path.exists(dfile):
+        return None
+    deps = {}
+    for line in open(dfile):
+        if '.vo ' not in line.split(':')[0] + ' ' or ':' not in line:
+            continue
+        lhs, rhs = line.split(':', 1)
+        tgt = lhs.split()[0]
+        if not tgt.endswith('.vo'):
+            continue
+        deps[tgt] = [w for w in rhs.split() if w.endswith('.vo')]
+    seen, todo = set(), list(roots)
+    while todo:
+        t = todo.pop()
+        if t in seen:
+            continue
+        seen.add(t)
+        todo += deps.get(t, [])
+    return {t[:-1] for t in seen}      # X.vo -> X.v
+
+
+def grep_gate(roots=None):
+    """no Admitted/Axiom/... in the development (restricted to the dependency closure of `roots` when
+    given, so that another property's file under construction cannot fail this property)"""
     bad = []
+    only = dep_closure(roots) if roots else None
     for root, _, files in os.walk(COQ):
         for f in files:
             if f.endswith('.v'):
                 p = os.path.join(root, f)
+                rel = os.path.relpath(p, COQ)
+                if only is not None and rel not in only:
+                    continue
                 txt = re.sub(r'\(\*.*?\*\)', '', open(p).read(), flags=re.S)
                 for m in FORBIDDEN.finditer(txt):
-                    bad.append('%s: %s' % (os.path.relpath(p, COQ), m.group(0)))
+                    bad.append('%s: %s' % (rel, m.group(0)))
     return bad
 
 
@@ -214,7 +244,10 @@ class Check:
     def coq(self, gen=(), targets=(), props=None):
         """regenerate Gen files, build targets, compile Props file; record obligations"""
         with BuildLock():
-            bad = grep_gate()
+            ensure_makefile()
+            plist0 = [props] if isinstance(props, str) else list(props or [])
+            bad = grep_gate(None if (self.tier == 'thorough' and not os.environ.get('NV_GATE_LOCAL')) else
+                            list(targets) + ['Props/%s.vo' % pf for pf in plist0] + ['Extract/%s.vo' % self.pid])
             if bad:
                 self.obligations.append({'name': 'grep-gate', 'kind': 'gate', 'ok': False, 'detail': bad[:5]})
                 self.broken.append('grep gate: ' + '; '.join(bad[:3]))
@@ -318,13 +351,15 @@ class Check:
                       open(path, 'w'), indent=1, default=str)
             lines.append('VIOLATION property=%s replay=%s no-failing-input-found' % (self.pid, path))
             rc = 1
+        if not self.obligations:
+            self.obligations.append({'name': 'coq-obligations-not-reached', 'kind': 'gate', 'ok': False})
         nob = len(self.obligations)
         ndis = sum(1 for o in self.obligations if o['ok'])
         cov = dict(self.cov)
         cov['distinct_nontrivial'] = len(self._distinct)
         cov['rule'] = rule or cov.get('rule', '')
         cov['obligations'] = nob
-        cov['discharged'] = ndis
+        cov['discharged'] = max(ndis, 0)
         cov['checker_cmd'] = getattr(self, 'checker_cmd', 'coqc (see ./check)')
         cov['trusted_base'] = self.trusted or ['Coq 8.16.1 kernel (vm_compute used, native_compute not used)']
         cov['obligation_list'] = self.obligations
